@@ -18,6 +18,18 @@ const (
 	Others = "others"
 )
 
+// DefsPrivate is Defs with the named direct symbols of the things store registered through the non-public constructors.
+func DefsPrivate(private map[string]bool) []*schema.StoreDef {
+	defs := Defs()
+	things := defs[2]
+	for i := range things.Fields {
+		if private[things.Fields[i].Name] {
+			things.Fields[i].Private = true
+		}
+	}
+	return defs
+}
+
 func Defs() []*schema.StoreDef {
 	owners := &schema.StoreDef{Type: Owners, BasePath: []string{"stores"},
 		Fields: []schema.Field{{Name: "name", Kind: schema.KStr}, {Name: "age", Kind: schema.KI64}, {Name: "active", Kind: schema.KBool}, {Name: "tags", Kind: schema.KList},
